@@ -10,23 +10,25 @@ Proof. reflexivity. Qed.
 Theorem revoke_effective cfg cls h1 c cl tok hint0 r h2 i e tampered hint scopes :
   let s1 := run cfg (state0 cls) h1 in
   clients s1 c = Some cl -> revoke_lookup s1 (key_of s1 tok) hint0 = Some r -> r_client r = c ->
+  endpoint_token s1 tok ->
   let res := revoke cfg s1 (Some c) tok hint0 in
   o_err (snd res) = "" /\
   (let s2 := run cfg (fst res) h2 in
-   nth_error (log s2) i = Some e -> i_rid e = r_id r ->
+   nth_error (log s2) i = Some e -> i_rid e = r_id r -> i_kind e <> KImplicit ->
    introspect cfg s2 {| p_ref := CRef i; p_tampered := tampered |} hint scopes = None).
 Proof.
-  intros s1 Hc Hl Hcl res.
+  intros s1 Hc Hl Hcl Hep res.
   assert (I1 : Inv s1) by apply Inv_reachable.
-  destruct (revoke_kills cfg s1 c cl tok hint0 r I1 Hc Hl Hcl) as [He Hd].
-  split; [exact He|]. intros s2 Hn Hrid.
+  destruct (revoke_kills cfg s1 c cl tok hint0 r I1 Hc Hl Hcl Hep) as [He Hd].
+  split; [exact He|]. intros s2 Hn Hrid Hkind.
   assert (I2 : Inv (fst res)) by (unfold res; rewrite revoke_is_step; now apply Inv_step).
   assert (Hlt : r_id r < next_rid (fst res)).
   { pose proof (next_rid_step cfg s1 (ORevoke (Some c) tok hint0)) as Hm. cbn [step] in Hm.
-    destruct (revoke_lookup_live _ _ _ _ Hl) as [k [_ [Ha|Hr]]].
+    destruct (revoke_lookup_live _ _ _ _ Hl) as [k [_ [Ha|[[_ Hi]|Hr]]]].
     - pose proof (proj2 (inv_access_fresh s1 _ _ I1 Ha)). unfold res. lia.
+    - pose proof (proj2 (inv_owner_fresh s1 I1 _ _ _ (inv_owner_implicit s1 I1 _ _ Hi))). unfold res. lia.
     - pose proof (proj2 (inv_refresh_fresh s1 _ _ _ I1 Hr)). unfold res. lia. }
-  eapply dead_credential_inactive; [apply Inv_run; exact I2|apply dead_run; [exact Hd|exact Hlt]|exact Hn|exact Hrid].
+  eapply dead_credential_inactive; [apply Inv_run; exact I2|apply dead_run; [exact Hd|exact Hlt]|exact Hn|exact Hrid|exact Hkind].
 Qed.
 
 (* a different authenticated client: unauthorized_client, nothing changes *)
@@ -56,10 +58,11 @@ Theorem revoke_hint_irrelevant cfg cls hs auth tok h h' :
 Proof.
   intros s. assert (I : Inv s) by apply Inv_reachable.
   assert (L : revoke_lookup s (key_of s tok) h = revoke_lookup s (key_of s tok) h').
-  { unfold revoke_lookup. destruct (key_of s tok) as [k|]; cbn [find]; [|destruct h, h'; reflexivity].
+  { unfold revoke_lookup, lookup_access. destruct (key_of s tok) as [k|]; cbn [find]; [|destruct h, h'; reflexivity].
     destruct (refresh (st s) k) as [[[|] rr]|] eqn:Er; destruct (access (st s) k) as [ra|] eqn:Ea;
-      try (destruct h, h'; reflexivity).
-    pose proof (inv_access_not_refresh s k ra I Ea). congruence. }
+      destruct (implicit (st s) k) as [ri|] eqn:Ei; try (destruct h, h'; reflexivity);
+      exfalso; first [ pose proof (inv_access_not_refresh s k ra I Ea); congruence
+                     | pose proof (inv_owner_implicit s I _ _ Ei) as H1; pose proof (inv_owner_refresh s I _ _ _ Er) as H2; congruence ]. }
   unfold revoke. destruct auth as [c|]; [|reflexivity]. destruct (clients s c); [|reflexivity]. now rewrite L.
 Qed.
 
@@ -81,10 +84,11 @@ Proof.
   pose proof (Inv_revoke_refresh s1 (r_id r) I) as I1.
   destruct (revoke_access_tables (fst (revoke_refresh (st s1) (r_id r))) (r_id r)) as [_ [Tr _]].
   destruct (revoke_refresh_tables (st s1) (r_id r)) as [_ [Ta _]].
-  split.
-  - transitivity (access (fst (revoke_refresh (st s1) (r_id r))) (i_key e)).
-    + apply (revoke_access_frame (set_store s1 (fst (revoke_refresh (st s1) (r_id r)))) (r_id r) (i_key e) I1).
-      cbn. rewrite Ho. congruence.
-    + now rewrite Ta.
-  - rewrite Tr. apply revoke_refresh_frame; [assumption|]. rewrite Ho. congruence.
+  assert (Hno : forall kd, owner s1 (i_key e) <> Some (kd, r_id r)) by (intros kd; rewrite Ho; congruence).
+  assert (Ti : implicit (fst (revoke_refresh (st s1) (r_id r))) = implicit (st s1)).
+  { unfold revoke_refresh. destruct (rt_idx _ _) as [k1|]; [destruct (refresh _ k1) as [[? ?]|]|]; reflexivity. }
+  destruct (revoke_access_frame (set_store s1 (fst (revoke_refresh (st s1) (r_id r)))) (r_id r) (i_key e) I1 Hno) as [Fa Fi].
+  cbn in Fa, Fi.
+  split; [rewrite Fa, Ta; reflexivity|]. split; [rewrite Fi, Ti; reflexivity|].
+  rewrite Tr. apply revoke_refresh_frame; [assumption|]. rewrite Ho. congruence.
 Qed.
